@@ -8,7 +8,7 @@ OPS = ["D pk", "D u", "D n", "D i", "D b", "D bs", "D ts", "D as", "D ms", "D br
 def exhausted_case(cid, total, kind, op, op2):
     """an input of exactly `total` bytes, consumed completely; then every operation must report End"""
     script, expect = [], []
-    if total == 0 or kind == "un":
+    if total == 0 or kind in ("un", "nx", "dir"):
         script.append("D new %s -" % kind); expect.append("ok")
     elif total < 6:
         script.append("D new %s %s" % (kind, "00" * total)); expect.append("ok")
@@ -82,8 +82,14 @@ def gen_cases(tier, rng):
         for kind in ("ss", "fs"):
             for k, op in enumerate(OPS):
                 cases.append(exhausted_case("e%d" % i, total, kind, op, OPS[(k + 3) % len(OPS)])); i += 1
-    for k, op in enumerate(OPS):
-        cases.append(exhausted_case("e%d" % i, 0, "un", op, OPS[(k + 5) % len(OPS)])); i += 1
+    for kind in ("un", "nx", "dir"):
+        for k, op in enumerate(OPS):
+            cases.append(exhausted_case("e%d" % i, 0, kind, op, OPS[(k + 5) % len(OPS)])); i += 1
+    # a stream that delivers exactly `total` bytes and then fails with an I/O error (badbit set, eofbit clear)
+    # (only whole windows: libstdc++ discards the bytes of a read() during which the stream buffer throws)
+    for total in (W, 2 * W):
+        for k, op in enumerate(OPS):
+            cases.append(exhausted_case("e%d" % i, total, "bad", op, OPS[(k + 2) % len(OPS)])); i += 1
     if tier == "quick":
         cases += truncation_cases(tier, rng, "t", 6, 40)
     else:
@@ -98,8 +104,8 @@ def run(ctx):
     diffs, fails = common.run_expect(ctx, cases, batch=12)
     # truncation: results of the commands inside the cut item must be their full-input result or End (prefix theorem)
     common.summarize_cov(rep, cases,
-        "(a) inputs of exactly 0, 1, 2, 65534, 65535, 65536, 131069..131071, 196605 bytes through std::istringstream / std::ifstream, plus a never-"
-        "opened ifstream, consumed completely, then each of the 11 public read operations three times: all must report End and the input stays "
+        "(a) inputs of exactly 0, 1, 2, 65534, 65535, 65536, 131069..131071, 196605 bytes through std::istringstream / std::ifstream, plus unreadable "
+        "streams (never-opened ifstream, ifstream on a missing path, ifstream on a directory, a stream that fails with an I/O error after n bytes), consumed completely, then each of the 11 public read operations three times: all must report End and the input stays "
         "exhausted; (b) streams of random well-formed items (small, and 1-2 windows long) cut at every window multiple +-2, at item ends +-1 and at "
         "random offsets: the values wholly inside the prefix are returned as in the full stream, the next read reports End. "
         "distinct = distinct scripts; expectations from the generator's ground truth", diffs, fails)
